@@ -601,6 +601,8 @@ func all() []scen {
 		{"slow-subscriber-vs-writers", setupOpt{vectors: []string{"a", "b"}, subscriber: true}, []explore.Thread{adder("w1", "x", "y"), adder("w2", "z")}, oracleAdded},
 		{"unsubscribe-vs-writer", setupOpt{vectors: []string{"a", "b"}, subscriber: true}, []explore.Thread{adder("w1", "x", "y"), unsubscriber("u")}, oracleAdded},
 		{"close-vs-writer-with-subscriber", setupOpt{vectors: []string{"a", "b"}, subscriber: true}, []explore.Thread{adder("w1", "x", "y"), closerThenOps("c")}, oracleAfterClose},
+		{"kv-set-vs-rewrite", setupOpt{}, []explore.Thread{kvSetter("s", "k", "v1", "v2"), rewriter("r")}, oracleRegister("k", "<absent>")},
+		{"kv-set-vs-snapshot", setupOpt{}, []explore.Thread{kvSetter("s", "k", "v1", "v2"), snapshotter("sn")}, oracleRegister("k", "<absent>")},
 		{"delete-vs-link", abc, []explore.Thread{deleter("del", "b"), link("l", "a", "b")}, nil},
 	}
 }
